@@ -111,7 +111,8 @@ func (m *Machine) jsonModel(v Value, t types.Type, depth int) []*sym.Term {
 		for _, e := range x.Entries {
 			ks, ok := e.K.(Str)
 			if !ok {
-				m.unsupported("json model: map with non-string keys")
+				// encoding/json and go-json refuse maps whose key type is not a string / integer / TextMarshaler
+				panic(jsonUnsupportedType{"map with non-string keys"})
 			}
 			cs, ok := ks.Concrete()
 			if !ok {
@@ -132,8 +133,20 @@ func (m *Machine) jsonModel(v Value, t types.Type, depth int) []*sym.Term {
 }
 
 func addJSONIntrinsics(t map[string]intrinsic) {
-	marshal := func(m *Machine, fr *frame, a []Value) Value {
+	marshal := func(m *Machine, fr *frame, a []Value) (res Value) {
 		itf, _ := a[0].(Iface)
+		defer func() {
+			if r := recover(); r != nil {
+				ut, ok := r.(jsonUnsupportedType)
+				if !ok {
+					panic(r)
+				}
+				et := m.lookupType("errors", "errorString")
+				cell := new(Value)
+				*cell = Struct{m.mkStr("json: unsupported type: " + ut.what)}
+				res = Tuple{Slice{Nil: true}, Iface{T: types.NewPointer(et), V: cell}}
+			}
+		}()
 		var bs []*sym.Term
 		if itf.T == nil {
 			bs = m.mkStr("n").B
@@ -182,6 +195,8 @@ func addJSONIntrinsics(t map[string]intrinsic) {
 	t["encoding/json.Unmarshal"] = unmarshal("json")
 	t["gopkg.in/yaml.v3.Unmarshal"] = unmarshal("yaml")
 }
+
+type jsonUnsupportedType struct{ what string }
 
 type marshalRec struct {
 	t types.Type
